@@ -284,7 +284,7 @@ def run_templates(ctx):
                     if errs:
                         ctx.violation({**case, "value": repr(v)[:200]}, {"document": jdoc, "error": errs[0].message[:200]}, "the serialized document validates against build_json_schema(T)",
                                       "the generated schema rejects the serializer's own output",
-                                      lambda f, _t=tags: (f["id"] == "K5" and bool(_t & K5_TAGS)) or (f["id"] == "K16" and "omit" in _t) or (f["id"] == "K17" and "non-init" in _t))
+                                      lambda f, _t=tags, _v=vname: (f["id"] == "K5" and bool(_t & (K5_TAGS - {"same-name-definitions"}) or ("same-name-definitions" in _t and _v in ("draft+refs", "openapi")))) or (f["id"] == "K16" and "omit" in _t) or (f["id"] == "K17" and "non-init" in _t))
     finally:
         JT.cleanup(mods)
 
